@@ -23,6 +23,13 @@ pub fn random_config(rng: &mut Rng, k: usize) -> SetSpec {
         custom_lexer: rng.chance(0.25),
         ps: if glr { None } else { Some(true) },
         partial: rng.chance(0.2),
+        // every table type under both algorithms (LALR_RN tables in LR parsers, plain LALR tables in GLR parsers)
+        table: if rng.chance(0.5) { Some(rng.below(3) as u8) } else { None },
+        skip_ws: rng.chance(0.8),
+        ms: rng.chance(0.7),
+        lm: rng.chance(0.7),
+        go: if rng.chance(0.3) { Some(rng.chance(0.5)) } else { None },
+        pse: if rng.chance(0.2) { Some(true) } else { None },
         ..Default::default()
     }
 }
